@@ -7,7 +7,8 @@ also run through the verified shape checker `stab.iscanon` (Lean `isCanon`, soun
 theorem `canonical_form_is_normal_form` rests).
 Direct oracle (independent of graphiq and of the model): the exact overlap |<a|b>|^2 computed (i) for n <= 5 from dense density
 matrices tr(rho_a rho_b), (ii) for every n by GF(2) elimination: 0 if the groups contain P and -P, else 2^-(n - dim(A ∩ B));
-symmetry; fidelity = 1 iff same signed group; canonical form / equality depend only on the signed group and distinguish signs.
+symmetry; fidelity = 1 iff same signed group; canonical form / equality depend only on the signed group and distinguish signs;
+`graphiq.metrics.Infidelity.evaluate` on stabilizer targets (pure state, and a mixture sum_i p_i F(T_i, T_t)) = 1 - that overlap.
 Formal specification check (n <= 3): the Lean predicates of the fidelity theorems (`Orth`, the common subgroup A ∩ B) are evaluated on
 every pair through their brute-force executable versions (`stab.overlap`: `orthB_iff`, `commonB_iff` proved exact) and compared with
 the REAL fidelity and with the elimination oracle — so the statement the theorems are about is itself tied to the code's values.
@@ -91,6 +92,23 @@ def impl_fidelity(a, b):
     return sfm.fidelity(a.copy(), b.copy())
 
 
+def impl_infidelity(a, b):
+    """(Infidelity(target=a).evaluate(b), Infidelity(target=a).evaluate(mixture {1/4: b, 3/4: a with one sign flipped}), expected mixture value)"""
+    from graphiq.metrics import Infidelity
+    from graphiq.state import QuantumState
+
+    qa = QuantumState(a.copy(), rep_type="s")
+    inf_pure = float(Infidelity(qa).evaluate(QuantumState(b.copy(), rep_type="s"), None))
+    c = a.copy()
+    c.phase[a.n_qubits] ^= 1  # the target with the sign of its first stabilizer generator flipped: orthogonal to the target
+    qm = QuantumState(b.copy(), rep_type="s", mixed=True)
+    qm.rep_data.mixture = [(0.25, b.copy()), (0.75, c)]
+    qam = QuantumState(a.copy(), rep_type="s", mixed=True)  # target held as a one-component mixture
+    inf_mix = float(Infidelity(qam).evaluate(qm, None))
+    want_mix = 1.0 - (0.25 * fid_value(overlap_spec(a, b)) + 0.75 * fid_value(overlap_spec(a, c)))
+    return inf_pure, inf_mix, want_mix
+
+
 def fid_value(spec):
     return 0.0 if spec[0] == "zero" else 2.0 ** (-spec[1])
 
@@ -116,6 +134,18 @@ def check_pair(res, a, b, tag, pending, same=None):
     same_state = tu.stab_canon(a) == tu.stab_canon(b)
     if (abs(f_ab - 1.0) < 1e-12) != same_state:
         fails.append(("fidelity:one-iff-equal", f"fidelity={f_ab} but same_state={same_state}"))
+    # graphiq.metrics.Infidelity on stabilizer targets (the consumer of this fidelity named in the property's anchors):
+    # pure state against pure target, and a two-component mixture against the pure target (sum_i p_i F(T_i, T_t) = tr(rho rho_t));
+    # expected values from the independent oracle, on every third pair
+    if res.evaluations % 3 == 0 or tag in ("replay", "search"):
+        try:
+            inf_pure, inf_mix, want_mix = impl_infidelity(a, b)
+            if abs(inf_pure - (1.0 - want)) > 1e-12:
+                fails.append(("infidelity:wrong-value", f"Infidelity.evaluate = {inf_pure} but 1 - |<a|b>|^2 = {1.0 - want}"))
+            if abs(inf_mix - want_mix) > 1e-12:
+                fails.append(("infidelity:mixture-wrong-value", f"Infidelity.evaluate on a mixture = {inf_mix} but 1 - sum p_i |<a|b_i>|^2 = {want_mix}"))
+        except Exception as e:  # noqa: BLE001
+            fails.append((f"infidelity:raises:{err_class(e)}", "Infidelity.evaluate raised on valid stabilizer states"))
     if n <= 5:
         dense = float(np.real(np.trace(tu.dense_rho(a) @ tu.dense_rho(b))))
         if abs(dense - want) > 1e-9:
@@ -271,6 +301,26 @@ def run(ctx, budget=1.0):
         else:
             b = su.random_state(rng, n)
         check_pair(res, a, b, "random", pending)
+        if len(pending) >= 60:
+            flush(res, drv, pending)
+    flush(res, drv, pending)
+    # low X rank first arguments: the z_list branch of inverse_circuit's first block (the code repaired in 74abae4; D42 made
+    # fidelity(a, a) = 0.5 exactly here) runs on most columns; generic random states almost never reach it
+    from harness.c11 import low_x_rank_state
+
+    for _ in range(int((80 if ctx.quick else 2000) * budget)):
+        n = rng.randrange(3, 9 if ctx.quick else 13)
+        a = low_x_rank_state(rng, n)
+        mode = rng.random()
+        if mode < 0.3:
+            b = su.regauge_clifford(a, rng)
+        elif mode < 0.5:
+            b = su.regauge_clifford(flip_sign(a, rng), rng)
+        elif mode < 0.8:
+            b = low_x_rank_state(rng, n)
+        else:
+            b = su.random_state(rng, n)
+        check_pair(res, a, b, "low-x-rank", pending)
         if len(pending) >= 60:
             flush(res, drv, pending)
     flush(res, drv, pending)
